@@ -1,9 +1,30 @@
-import SSVerif.Model.Lattice
-/-! # C11 (work in progress) -/
+import SSVerif.Proofs.LatticeGraph
+/-!
+# C11 — The word lattice is a well-formed, time-consistent graph of grammar paths
+
+Property theorems only.  `L : Lat` is a lattice as `decoder_lattice` hands it out (dumped through
+the iterator API by `harness/h_c11.c`, or built by the model's `buildLattice`), `G` the search
+grammar (`fsg_search_t.fsg`, with filler loops and alternate pronunciations) as an ε-NFA.
+
+`LatticeOK G L` is the *local* reading of the property: finitely many conditions on single nodes
+and links (valid endpoints, one link per node pair, nothing enters the start / leaves the end and
+every other node has an entry and an exit, synthetic nodes only as start/end, node and link times,
+how the `<s>`/`</s>` markers are linked, every link a grammar step).  `latticeOKB` decides it and is
+run by the driver on every lattice the C code returns.  The theorems below lift the local predicate
+to the universally quantified statements of the property: no cycle and a bound on the length of
+*every* path, *every* node on a start→end path, the words along *every* path from the start a path
+of the grammar.
+
+Not proved here (tied by the correspondence run and by running `latticeOKB` on the model's output as
+well): that the model `buildLattice` yields `LatticeOK` for every well-formed history table.
+-/
 namespace SSVerif.Lattice
 open SSVerif.Nfa
 
-/-- the checker decides the predicate -/
+variable {G : Nfa} {L : Lat}
+
+/-- **C11, verified checker.** The Boolean checker run on the implementation's lattices decides
+exactly the predicate `LatticeOK`. -/
 theorem C11_latticeOKB_iff (G : Nfa) (L : Lat) : latticeOKB G L = true ↔ LatticeOK G L := by
   unfold latticeOKB clauseResults
   simp only [List.all_cons, List.all_nil, Bool.and_true, Bool.and_eq_true, decide_eq_true_eq]
@@ -12,5 +33,150 @@ theorem C11_latticeOKB_iff (G : Nfa) (L : Lat) : latticeOKB G L = true ↔ Latti
     exact ⟨h1, h2, h3, h4, h5, h6, h7, h8, h9⟩
   · rintro ⟨h1, h2, h3, h4, h5, h6, h7, h8, h9⟩
     exact ⟨h1, h2, h3, h4, h5, h6, h7, h8, h9⟩
+
+/-- **C11, acyclic.** Every link strictly increases the rank (0 for the synthetic start, start frame
++ 1 otherwise — so every link between word nodes strictly increases the start frame); hence no path
+returns to its first node, and every path has at most `n_frames + 1` links. -/
+theorem C11_lattice_acyclic (ok : LatticeOK G L) :
+    (∀ l ∈ L.links, L.rank l.src < L.rank l.dst) ∧
+    (∀ u p, Path L u p u → p = []) ∧
+    (∀ u v p, u < L.n → Path L u p v → p.length ≤ L.nframes + 1) :=
+  ⟨fun _ hl => rank_lt ok hl, fun _ _ h => acyclic ok h, fun _ _ _ hu h => path_length_le ok h hu⟩
+
+/-- **C11, single start and end.** The start node is the only node without an entering link, the
+end node the only node without a leaving link. -/
+theorem C11_single_start_end (ok : LatticeOK G L) (v : Nat) (hv : v < L.n) :
+    ((∀ l ∈ L.links, l.dst ≠ v) ↔ v = L.start) ∧ ((∀ l ∈ L.links, l.src ≠ v) ↔ v = L.final) := by
+  constructor
+  · constructor
+    · intro h
+      apply Classical.byContradiction
+      intro hne
+      obtain ⟨l, hl, hd⟩ := ok.startEnd.2.1 v hv hne
+      exact h l hl hd
+    · rintro rfl l hl; exact (ok.startEnd.1 l hl).1
+  · constructor
+    · intro h
+      apply Classical.byContradiction
+      intro hne
+      obtain ⟨l, hl, hd⟩ := ok.startEnd.2.2 v hv hne
+      exact h l hl hd
+    · rintro rfl l hl; exact (ok.startEnd.1 l hl).2
+
+/-- **C11, every node lies on a start→end path.** -/
+theorem C11_all_on_start_end_path (ok : LatticeOK G L) (v : Nat) (hv : v < L.n) :
+    ∃ p q, Path L L.start p v ∧ Path L v q L.final := by
+  obtain ⟨p, hp⟩ := reach_from_start ok _ v rfl hv
+  obtain ⟨q, hq⟩ := reach_final ok _ v rfl hv
+  exact ⟨p, q, hp, hq⟩
+
+/-- **C11, time consistency.** A link between two word nodes joins a word instance of the source
+node — it starts at the node's start frame and ends at the link's end frame `t`, which is one of the
+node's end frames — to a word node that starts at frame `t + 1`, inside the utterance.  The markers:
+the synthetic start sits at frame 0 and is linked (with `ef = 0`) exactly to word nodes starting at
+frame 0; links into the synthetic end carry `ef = n_frames` and leave word nodes whose last end frame
+is the last exit frame of the utterance. -/
+theorem C11_links_time_consistent (ok : LatticeOK G L) (l : Link) (hl : l ∈ L.links) :
+    ((L.node l.src).real = true → (L.node l.dst).real = true →
+      (L.node l.src).sf ≤ l.ef ∧ (L.node l.src).fef ≤ l.ef ∧ l.ef ≤ (L.node l.src).lef ∧
+      (L.node l.dst).sf = l.ef + 1 ∧ (L.node l.dst).sf < L.nframes) ∧
+    ((L.node l.src).real = false → l.src = L.start ∧ (L.node l.src).sf = 0 ∧ l.ef = 0 ∧
+      (L.node l.dst).real = true ∧ (L.node l.dst).sf = 0) ∧
+    ((L.node l.dst).real = false → l.dst = L.final ∧ (L.node l.dst).sf = L.nframes ∧ l.ef = L.nframes ∧
+      (L.node l.src).real = true ∧ (L.node l.src).lef = L.maxLef ∧ L.maxLef < L.nframes) := by
+  have ht := ok.linkTimes l hl
+  have hep := ok.endpoints.2.2 l hl
+  refine ⟨?_, ?_, ?_⟩
+  · intro hs hd
+    obtain ⟨h1, h2, h3, h4⟩ := ht.1 hs hd
+    have := (ok.nodeTimes l.dst hep.2).1 hd
+    exact ⟨h1, h2, h3, h4.symm, by omega⟩
+  · intro hs
+    obtain ⟨h1, h2, h3, h4⟩ := ht.2.2 hs
+    have := ((ok.nodeTimes l.src hep.1).2 hs).1 h1
+    exact ⟨h1, this, h2, h3, h4⟩
+  · intro hd
+    cases hs : (L.node l.src).real with
+    | false =>
+      have := (ht.2.2 hs).2.2.1
+      rw [hd] at this; cases this
+    | true =>
+      obtain ⟨h1, h2, h3⟩ := ht.2.1 hs hd
+      have hne := (ok.startEnd.1 l hl).1
+      have h4 := ((ok.nodeTimes l.dst hep.2).2 hd).2 hne
+      have h5 := (ok.nodeTimes l.src hep.1).1 hs
+      exact ⟨h1, h4, h2, rfl, h3, by omega⟩
+
+/-- **C11, grammar paths.** For every path from the start node, the words of the word nodes along
+it (`sentence`) are the label sequence of a path of the grammar from its start state; that grammar
+path ends in the grammar state stored with the last word node. -/
+theorem C11_paths_are_grammar_paths (ok : LatticeOK G L) (p : List Link) (v : Nat) (h : Path L L.start p v) :
+    ∃ q, Reach G G.start (sentence L L.start p) q ∧ ((L.node v).real = true → (L.node v).state = some q) :=
+  paths_grammar ok h
+
+/-- **C11, first-best in the lattice (verified validation).** When the driver's check of a witness
+path succeeds, the first-best segmentation — the list of `(word, start frame, end frame)` of its word
+segments — is the instance sequence of a start→end path of the lattice: consecutive word instances
+are joined by a link whose end frame is the first one's end frame, the first instance belongs to the
+start node (or a successor of the synthetic start), the last one ends at its node's last end frame
+and that node is the end node (or linked to the synthetic end). -/
+theorem C11_first_best_in_lattice {segs : List Seg} {ls : List Link} (h : checkFirstBest L segs ls = true) :
+    ∃ ls, Path L L.start ls L.final ∧ instances L L.start ls = segs :=
+  checkFirstBest_sound h
+
+/-- **C11, cache.** A lattice request that returned an object, repeated at the same frame count
+(no new audio), returns the same object and leaves the cache unchanged. -/
+theorem C11_cache_same_object (c : Cache) (frame : Nat) (b b' : Bool) (id : Nat)
+    (h : (c.request frame b).2 = some id) :
+    ((c.request frame b).1.request frame b').2 = some id ∧
+    ((c.request frame b).1.request frame b').1 = (c.request frame b).1 :=
+  cache_same c frame b b' id h
+
+/-! ### non-vacuity: a lattice with both markers, two start candidates and two end candidates -/
+
+/-- grammar: `sil* go sil* (forward | ford) sil*` with states 0,1,2; word ids sil=0 go=1 forward=2 ford=3 -/
+def exG : Nfa where
+  start := 0
+  final := 2
+  arcs := [(0, some 1, 1), (1, some 2, 2), (1, some 3, 2), (0, some 0, 0), (1, some 0, 1), (2, some 0, 2)]
+
+/-- 10 frames; node 0 = `</s>`, 1 = `<s>`, 2 = forward@4, 3 = ford@4, 4 = go@0, 5 = go@2, 6 = sil@0 -/
+def exL : Lat where
+  nframes := 10
+  start := 1
+  final := 0
+  nodes := [⟨9, 10, 10, 10, none⟩, ⟨8, 0, 0, 0, none⟩, ⟨2, 4, 9, 9, some 2⟩, ⟨3, 4, 9, 9, some 2⟩,
+            ⟨1, 0, 3, 3, some 1⟩, ⟨1, 2, 3, 3, some 1⟩, ⟨0, 0, 1, 1, some 0⟩]
+  links := [⟨1, 4, 0, 0⟩, ⟨1, 6, 0, -5⟩, ⟨2, 0, 10, -40⟩, ⟨3, 0, 10, -41⟩, ⟨4, 2, 3, -20⟩, ⟨4, 3, 3, -30⟩,
+            ⟨5, 2, 3, -7⟩, ⟨5, 3, 3, -8⟩, ⟨6, 5, 1, -10⟩]
+
+theorem exL_ok : LatticeOK exG exL := (C11_latticeOKB_iff exG exL).1 (by decide +kernel)
+
+-- the path <s> → sil@0 → go@2 → ford@4 → </s> is a grammar path `sil go ford`
+example : ∃ q, Reach exG exG.start [0, 1, 3] q :=
+  have h := C11_paths_are_grammar_paths exL_ok [⟨1, 6, 0, -5⟩, ⟨6, 5, 1, -10⟩, ⟨5, 3, 3, -8⟩, ⟨3, 0, 10, -41⟩] 0
+    ((pathB_iff _ _ _).1 (by decide +kernel))
+  h.imp fun _ hq => by
+    have : sentence exL exL.start [⟨1, 6, 0, -5⟩, ⟨6, 5, 1, -10⟩, ⟨5, 3, 3, -8⟩, ⟨3, 0, 10, -41⟩] = [0, 1, 3] := by
+      decide +kernel
+    rw [← this]; exact hq.1
+
+-- a first-best segmentation on a path, and one that is not accepted (wrong boundary)
+example : checkFirstBest exL [⟨0, 0, 1⟩, ⟨1, 2, 3⟩, ⟨2, 4, 9⟩]
+    [⟨1, 6, 0, -5⟩, ⟨6, 5, 1, -10⟩, ⟨5, 2, 3, -7⟩, ⟨2, 0, 10, -40⟩] = true := by decide +kernel
+example : findSegPath exL 9 exL.start [⟨0, 0, 1⟩, ⟨1, 2, 3⟩, ⟨2, 4, 8⟩] = none := by decide +kernel
+
+-- a cycle, a dangling node and a time gap are rejected
+example : latticeOKB exG { exL with links := exL.links ++ [⟨2, 5, 9, -1⟩] } = false := by decide +kernel
+example : latticeOKB exG { exL with nodes := exL.nodes ++ [⟨1, 3, 4, 4, some 1⟩] } = false := by decide +kernel
+example : latticeOKB exG { exL with links := exL.links.map fun l => if l = ⟨6, 5, 1, -10⟩ then ⟨6, 5, 0, -10⟩ else l } = false := by
+  decide
+
+-- the cache hands out the same object until the frame count changes
+example : let c0 : Cache := { dag := none, nextId := 0 }
+    let r1 := c0.request 120 true
+    let r2 := r1.1.request 120 true
+    let r3 := r2.1.request 278 true
+    (r1.2, r2.2, r3.2) = (some 0, some 0, some 1) := by decide +kernel
 
 end SSVerif.Lattice
